@@ -1,18 +1,71 @@
 //! Scenario families, one module per property.
 
 use crate::evidence::Extra;
+use crate::prog::{self, Program};
 use crate::Tier;
-use verif_rt::explore::Scenario;
+use std::sync::Arc;
+use verif_rt::core::ExecResult;
+use verif_rt::explore::{Finding, Scenario};
+use verif_rt::RunOpts;
 
 pub mod c01;
+pub mod c02;
+pub mod c03;
+pub mod c04;
+pub mod c05;
+pub mod c06;
+pub mod c07;
+pub mod c08;
 
 pub fn scenarios(prop: &str, tier: Tier) -> Vec<Scenario> {
     match prop {
         "C01" => c01::scenarios(tier),
+        "C02" => c02::scenarios(tier),
+        "C03" => c03::scenarios(tier),
+        "C04" => c04::scenarios(tier),
+        "C05" => c05::scenarios(tier),
+        "C06" => c06::scenarios(tier),
+        "C07" => c07::scenarios(tier),
+        "C08" => c08::scenarios(tier),
         _ => vec![],
     }
 }
 
 pub fn extra_checks(_prop: &str, _tier: Tier, _seed: i64) -> Option<Extra> {
     None
+}
+
+/// a scenario whose body interprets `prog`
+pub fn scn(
+    name: String,
+    prog: Program,
+    bound: u32,
+    opts: RunOpts,
+    check: impl Fn(&ExecResult, &Program) -> Vec<Finding> + Send + Sync + 'static,
+) -> Scenario {
+    let params = format!("{:?}", prog);
+    let p1 = Arc::new(prog);
+    let p2 = p1.clone();
+    Scenario {
+        name,
+        params,
+        opts,
+        bound,
+        body: Arc::new(move || prog::run(&p1)),
+        check: Arc::new(move |r| check(r, &p2)),
+    }
+}
+
+/// producer threads p0..: `k` actions each, ids 100*(p+1)+q, built by `mk`
+pub fn producers(
+    mut prog: Program,
+    n: u32,
+    k: u32,
+    mk: impl Fn(u32, u32) -> crate::prog::Op,
+) -> Program {
+    for p in 0..n {
+        let ops = (0..k).map(|q| mk(p, 100 * (p + 1) + q)).collect();
+        prog = prog.thread(&format!("p{}", p), ops);
+    }
+    prog
 }
